@@ -57,7 +57,19 @@ CLAIMED = {
     'C13': dict(
         text="C13_ops/C13_bytes/C13_length/C13_roundtrip: for every width, sign, byte order and integer a fixint field serialises as exactly size_of raw pushes in the chosen order (never a varint) and decodes back; the extracted model is compared with the real crate on every generated value and the direct oracle (bytes == to_{le,be}_bytes, round trip) runs on the implementation.",
         note=NOTE + "serde's [u8;N] impl (array as tuple) and to_le_bytes/from_le_bytes",
-        design="6 (C13)"),    'C20': dict(
+        design="6 (C13)"),    'C15': dict(
+        text="C15_decl_agree: the borrowed (mod.rs) and owned (owned.rs) enum/struct declarations, as the translator reads them on every run, agree variant for variant and field for field; C15_conversion_faithful: the From<&DataModelType> family, interpreted from its translated arm tables, is the identity on the common tree view (every kind, name, order, nesting preserved) for every schema tree; C15_same_bytes: both forms serialise to identical bytes; C15_roundtrip: those bytes followed by anything decode (owned enum unfolded deep enough) to the conversion, consuming exactly them; C15_read_back: the decoded value determines the tree. Correspondence + direct oracles: random trees over all 26+4 kinds with random names, leaked to 'static; bytes vs an independent encoder; conversion vs directly built owned tree; truncated/mutated bytes vs the model's decoder.",
+        note=NOTE + "serde derive(Serialize/Deserialize) on the four schema types (modelled from the declarations: variant index = declaration order, fields in declared order); Box/slice/str plumbing of the conversions",
+        design="7 (C15)"),
+    'C16': dict(
+        text="C16_const_is_documented / C16_owned_is_documented: each of the two schema walks of key/hash.rs, interpreting the tag table translated from ITS OWN copy of the code and the FNV constants translated from the source, yields le_bytes 8 (FNV-1a64 (path ++ documented stream)) for every schema tree and path; C16_hashers_agree; C16_type_names_ignored: struct/enum type names never enter the key; C16_one_byte_changes_key: every FNV-1a step is a bijection of the 64-bit state and injective in the byte (inverse of the prime exhibited), so changing exactly one hashed byte (path byte, name byte, kind tag - C16_tags_distinct) always changes the key. Partial: collision-freeness for longer edits is not a theorem (2^64 keys); order sensitivity is FALSE on the unchanged tree (C16_order_sensitivity_refuted, C16_swap_condition; known finding F10). Correspondence + direct oracle: const hasher (cfg hook) vs run-time hasher vs independent FNV over an independent stream function, every single-node mutation.",
+        note=NOTE + "the const-fn evaluation of the hasher by rustc (the hook runs the same function at run time); Key::for_path::<T> checked against the hook on a corpus",
+        design="7 (C16)"),
+    'C19': dict(
+        text="C19_render_total: to_pseudocode/Display (hand-modelled control structure over the string literals and panic-arm tables translated from fmt.rs) returns text for every well-formed schema; C19_used_types_total: all_used_types answers for every schema incl. Usize/Isize/Schema (no panicking arm in the translated table - false before fix e6c0fbb); C19_used_types_exact: the collected set is exactly the schema and everything nested in it (subschema relation), nothing else; C19_struct_mentions / C19_enum_mentions: the top-level rendering contains the type name, each field name and each variant name as infixes. Correspondence + direct oracle: text compared byte for byte, set compared with an independent nesting function, catch_unwind.",
+        note=NOTE + "String/format!/HashSet of std; the formatter's control structure is hand-modelled (its literals and panic arms are translated)",
+        design="7 (C19)"),
+    'C20': dict(
         text="C20_crc_inside_cobs: Crc<Cobs<storage>> outputs the COBS frame of (plain bytes ++ their checksum); C20_cobs_any_storage / C20_crc_any_storage: each modifier is its transformation of the plain encoding on slice, heapless and growable storage alike; C20_unstack: undoing the layers in reverse order recovers the value; C20_user_flavour: a user flavour receives exactly the plain encoding in order, with or without a try_extend override. Direct oracle: independent COBS/CRC transforms composed over to_allocvec's bytes.",
         note=NOTE + "crates cobs and crc as above; the recording user flavour stands for any user flavour (it sees the call sequence)",
         design="5 (C20)"),
